@@ -47,6 +47,8 @@ class Ctx:
     def extend(self, recs):
         for r in recs:
             r.setdefault("property", self.prop)
+            for k, dv in (("observed", None), ("tolerance", None), ("quantities", {}), ("flags", {}), ("case_id", None), ("case", {})):
+                r.setdefault(k, dv)
             r.setdefault("seed", self.seed)
             r.setdefault("tier", self.tier)
             self.violations.append(r)
